@@ -1104,6 +1104,10 @@ func (g *Gen) genListener() {
 }
 
 func (g *Gen) genObserve() {
+	if g.p.ptrComps && g.rng.chance(40) {
+		g.do("gc")
+		return
+	}
 	switch g.rng.intn(10) {
 	case 0, 1, 2:
 		g.do("snapshot")
